@@ -10,7 +10,11 @@ namespace CashewsVerif.Decor
 inductive Kind where
   | val                 -- returns / yields a fresh payload (stamped with the execution that made it)
   | none                -- returns / yields `None`
-  | falsy (j : Nat)     -- returns / yields the j-th falsy constant (0, '', [], False, …)
+  | falsy (j : Nat)     -- returns / yields the j-th constant: a falsy one (0, '', [], False) or another odd value (a tuple,
+                        -- bytes, 0.0, an object that merely looks like the library's `RaiseException` wrapper, …)
+  | eobj (c p : Nat)    -- returns / yields an exception INSTANCE of class `c` with payload `p` as a VALUE (a row error in a
+                        -- stream of results): nothing is raised.  (For the basic decorator a function returning an exception
+                        -- object is outside the property's alphabet of behaviours - see `Simple.accepts`.)
   | exc (c p : Nat)     -- raises an exception of class `c` carrying payload `p` (stamped with the execution as well);
                         -- `p` is an opaque id of everything the instance carries beyond its class: the constructor
                         -- family and arguments it was built with, message, attributes, notes, `__cause__`
@@ -31,6 +35,7 @@ inductive Res where
   | none
   | falsy (j : Nat)
   | exc (c p n : Nat)
+  | eobj (c p n : Nat)  -- the exception instance of class `c`, payload `p` made by execution `n`, handed over as a value
   | junk
   deriving DecidableEq, Repr
 
@@ -39,6 +44,7 @@ def Kind.res (n i : Nat) : Kind → Res
   | .none => .none
   | .falsy j => .falsy j
   | .exc c p => .exc c p n
+  | .eobj c p => .eobj c p n
 
 def Res.isExc : Res → Bool
   | .exc _ _ _ => true
@@ -52,6 +58,7 @@ def Res.enc : Res → Val
   | .none => .nil
   | .falsy j => .nums [2, j]
   | .exc c p n => .nums [1, c, p, n]      -- RaiseException(exc)
+  | .eobj c p n => .nums [3, c, p, n]     -- the exception object itself, stored like any other value
   | .junk => .int 0
 
 /-- `return_or_raise(stored)`: a `RaiseException` raises what it wraps (`raise result.exc`: that very instance,
@@ -61,6 +68,7 @@ def Res.dec : Val → Res
   | .nil => .none
   | .nums [2, j] => .falsy j
   | .nums [1, c, p, n] => .exc c p n
+  | .nums [3, c, p, n] => .eobj c p n     -- … and returned / yielded like any other value: only a `RaiseException` raises
   | _ => .junk
 
 theorem Res.dec_enc (r : Res) : Res.dec r.enc = r := by
@@ -91,11 +99,14 @@ def Cond.eval : Cond → Kind → (dur : Nat) → CondRes
   | .all, _, _ => .bool true
   | .notNone, k, _ => .bool (k ≠ .none)                -- `result is not None` (an exception is not None)
   | .withExc sel, .exc c _, _ => if selected sel c then .theExc else .bool true
-  | .withExc _, _, _ => .bool true
+  | .withExc sel, .eobj c _, _ => if selected sel c then .theExc else .bool true   -- `isinstance(result, exceptions)` holds
+  | .withExc _, _, _ => .bool true                                                  -- for a yielded instance as well
   | .onlyExc sel, .exc c _, _ => if selected sel c then .theExc else .bool false
+  | .onlyExc sel, .eobj c _, _ => if selected sel c then .theExc else .bool false
   | .onlyExc _, _, _ => .bool false
   | .fn f, k, _ => match f k, k with
       | .theExc, .exc _ _ => .theExc
+      | .theExc, .eobj _ _ => .theExc
       | .theExc, _ => .other true                      -- "the exception it was handed" needs an exception
       | r, _ => r
   | .slower limit, _, dur => .bool (decide (limit < dur))
